@@ -50,6 +50,10 @@ KEY_PRIORITY: list[str] = []
 LONE_LITERAL_KEY = 'output-lone-nonplain-string-literal'
 # relay/literalize.j2 prints the content of a str value raw between double quotes: a double quote in the content ends the C++ literal early
 OUTPUT_QUOTE_KEY = 'output-unescaped-double-quote'
+# … and raw with its PYTHON escapes: C++ reads `\d` (unknown escape), `\x41b` (\x takes every hex digit), `\xe9` / `\351` (one byte, not the
+# UTF-8 of U+00E9) and `\?` differently
+OUTPUT_ESCAPE_KEY = 'output-python-escape-in-cpp-literal'
+PY_ESCAPE_TAG = ' [the Python reading of the escapes would give CPython\'s value]'
 UNESCAPED_DQ = re.compile(r'(?<!\\)(?:\\\\)*"')
 
 
@@ -678,7 +682,9 @@ def python_results(enums: list[list[Member]]) -> dict[str, Any]:
 			glob[e] = _EnumView(results, e)
 		for m in ms:
 			try:
-				results[m.key] = eval(compile(m.text, '<member>', 'eval'), glob, _Raiser(dict(results), enum))  # noqa: S307 - generated literal expressions only
+				with warnings.catch_warnings():
+					warnings.simplefilter('ignore')  # an unknown escape (`\\d`) still compiles, with a SyntaxWarning on stderr
+					results[m.key] = eval(compile(m.text, '<member>', 'eval'), glob, _Raiser(dict(results), enum))  # noqa: S307 - generated literal expressions only
 			except BaseException as e:  # noqa: BLE001
 				results[m.key] = e
 		done.append(enum)
@@ -1070,7 +1076,7 @@ def gen_body(rng: random.Random) -> str:
 		elif r < 0.6:
 			parts.append('\\' + rng.choice(['n', 't', 'r', 'a', 'b', 'f', 'v', '\\', "'", '"']))
 		elif r < 0.65:
-			parts.append('\\' + rng.choice(['d', 'w', 'z', ' ', '8', '9']))
+			parts.append('\\' + rng.choice(['d', 'w', 'z', ' ', '8', '9', '?', 'e']))
 		else:
 			parts.append(rng.choice(['a', 'b', '1', '2', '7', '8', '9', '0', ' ', 'x41', 'é', 'x', 'n', '"']))
 	return ''.join(parts)
@@ -1106,6 +1112,164 @@ def stream_unescape(ctx: Ctx) -> Stream:
 	st = common.correspond('unescape', triples, 'eval', classify=classify_case)
 	st.note = ('pairs of valid token bodies (plain pieces, octal 1-3 digits in greedy runs, \\xhh, one-character and unknown escapes): CPython eval of the quoted body vs decodeEsc '
 		'for left, right and their join; the two regular expressions of the shipped `_joins_escape` (read from evaluator.py) vs joinsEscape')
+	return st
+
+
+# ---------------------------------------------------------------------------------------------
+# the C++ reading of an inlined string body: own reader (search oracle), g++ (ground truth of the tie), stream `cppread`
+
+CPP_SIMPLE = {'n': 10, 't': 9, 'r': 13, 'a': 7, 'b': 8, 'f': 12, 'v': 11, '\\': 92, "'": 39, '"': 34, '?': 63}
+HEXDIGITS = '0123456789abcdefABCDEF'
+
+
+def cpp_read(body: str) -> bytes | None:
+	r"""The bytes of the C++ narrow string literal "body" (ISO C++ [lex.string], UTF-8 execution character set), or None when "body" is
+	not one well-defined literal (unescaped double quote, raw line feed, an escape ISO C++ does not define, a \x / octal value beyond
+	one byte, a \u / \U of a surrogate or beyond U+10FFFF, a body ending inside an escape). Written from the standard, independent of
+	tranp and of the Lean model; checked against g++ by the stream `cppread` on every run."""
+	out = bytearray()
+	i, n = 0, len(body)
+	while i < n:
+		c = body[i]
+		i += 1
+		if c != '\\':
+			if c in '"\n':
+				return None
+			out += c.encode('utf-8', errors='surrogatepass')
+			continue
+		if i >= n:
+			return None
+		e = body[i]
+		i += 1
+		if e in '01234567':
+			v, k = int(e), 1
+			while k < 3 and i < n and body[i] in '01234567':
+				v, k, i = v * 8 + int(body[i]), k + 1, i + 1
+			if v > 255:
+				return None
+			out.append(v)
+		elif e == 'x':
+			j = i
+			while j < n and body[j] in HEXDIGITS:
+				j += 1
+			if j == i or int(body[i:j], 16) > 255:
+				return None
+			out.append(int(body[i:j], 16))
+			i = j
+		elif e in 'uU':
+			w = 4 if e == 'u' else 8
+			digits = body[i:i + w]
+			if len(digits) != w or any(ch not in HEXDIGITS for ch in digits):
+				return None
+			v = int(digits, 16)
+			if 0xD800 <= v <= 0xDFFF or v > 0x10FFFF:
+				return None
+			out += chr(v).encode('utf-8')
+			i += w
+		elif e in CPP_SIMPLE:
+			out.append(CPP_SIMPLE[e])
+		else:
+			return None
+	return bytes(out)
+
+
+GXX_DIAG = re.compile(r'^[^:\n]*lits\.cpp:(\d+):\d+: (warning|error): ', re.M)
+
+
+def gxx_read(tmpdir: str, bodies: list[str]) -> list[bytes | None] | None:
+	"""g++ -std=c++20 -pedantic on one translation unit with one array per body; a diagnostic on a body's line = no well-defined
+	reading (None for that body). Returns None (the caller skips, with a count) when g++ is missing, too slow or behaves unexpectedly."""
+	import subprocess
+	res: list[bytes | None] = [b'' for _ in bodies]
+	live = list(range(len(bodies)))
+	src = os.path.join(tmpdir, 'lits.cpp')
+	exe = os.path.join(tmpdir, 'lits')
+	try:
+		for _ in range(4):
+			head = ['#include <cstdio>', 'template <unsigned long N> static void d(const char (&s)[N]) { for (unsigned long i = 0; i + 1 < N; i++) std::printf("%02x", (unsigned char)s[i]); std::printf("\\n"); }']
+			lines = head + [f'static const char s{k}[] = "{bodies[k]}";' for k in live]
+			lines.append('int main() { ' + ' '.join(f'd(s{k});' for k in live) + ' return 0; }')
+			with open(src, 'w', encoding='utf-8', errors='surrogatepass') as f:
+				f.write('\n'.join(lines) + '\n')
+			p = subprocess.run(['g++', '-std=c++20', '-pedantic', '-O0', '-fno-diagnostics-show-caret', '-fdiagnostics-color=never', '-o', exe, src],
+				capture_output=True, text=True, timeout=120)
+			flagged = {int(m.group(1)) - len(head) - 1 for m in GXX_DIAG.finditer(p.stderr)}
+			flagged = {live[i] for i in flagged if 0 <= i < len(live)}
+			if p.returncode != 0:
+				if not flagged:
+					return None
+				for k in flagged:
+					res[k] = None
+				live = [k for k in live if k not in flagged]
+				continue
+			r = subprocess.run([exe], capture_output=True, text=True, timeout=60)
+			rows = r.stdout.split('\n')
+			if r.returncode != 0 or len(rows) < len(live):
+				return None
+			for k, row in zip(live, rows):
+				res[k] = None if k in flagged else bytes.fromhex(row)
+			return res
+		return None
+	except Exception:  # noqa: BLE001 - g++ missing / timeout / unreadable output: the stream is skipped with a count
+		return None
+
+
+def show_bytes(b: bytes | None) -> str:
+	return 'none' if b is None else 'bytes ' + (b.hex() or '-')
+
+
+def stream_cppread(ctx: Ctx) -> Stream:
+	"""`cppBytes` (the C++ reader `C17.cpp_reads_python` / `output_string_cpp` are stated with) against g++, `utf8s ∘ decodeEsc` against
+	CPython's own reading of the same body, and the law itself on the real tools: where `cppSafe` accepts, g++ and CPython agree."""
+	rng = ctx.sub_rng('cppread')
+	bodies: list[str] = ['a\\d', '\\x41b', '\\xe9', '\\351', '\\?', 'caf\\u00e9\\t!', '\\0', '', '\\x41', '\\x7fz', '\\400', '\\U0001F600', 'a\\\\d', "it's", '\\"q\\"']
+	for _ in range(ctx.scale(500, 5000)):
+		b = gen_body(rng)
+		if rng.random() < 0.3:
+			b = b.replace('"', '\\"')
+		bodies.append(b)
+	bodies = [b for b in dict.fromkeys(bodies) if not UNESCAPED_DQ.search(b)]  # an unescaped `"` cannot be put to g++ as ONE literal: decided in Lean only
+	with ctx.timed('gxx'):
+		gxx = gxx_read(ctx.tmpdir(), bodies)
+	st_note = ''
+	if gxx is None:
+		ctx.notes.append(f'cppread: g++ gave no usable answer; the {len(bodies)} bodies were compared with the harness reader cpp_read only')
+		st_note = ' (g++ unavailable in this run: compared with the harness reader only)'
+		gxx = [cpp_read(b) for b in bodies]
+	triples = []
+	own_bad: list[dict[str, Any]] = []
+	law_bad: list[dict[str, Any]] = []
+	safe_lines = [f'cppsafe\t{hx(b)}' for b in bodies]
+	safe = common.lean_driver('eval', safe_lines)
+	hist = {'cppsafe': 0, 'cpp-none': 0, 'cpp-same-as-python': 0, 'cpp-differs-from-python': 0}
+	for b, g, sf in zip(bodies, gxx, safe):
+		try:
+			with warnings.catch_warnings():
+				warnings.simplefilter('ignore')
+				py: bytes | None = eval(f'"{b}"', {'__builtins__': {}}).encode('utf-8', errors='surrogatepass')  # noqa: S307 - generated literal (no unescaped `"` in it)
+		except Exception:  # noqa: BLE001 - not a Python literal: nothing to compare the C++ reading with
+			py = None
+		own = cpp_read(b)
+		if own != g and len(own_bad) < 5:
+			own_bad.append({'case': 'cppread', 'op': f'harness reader cpp_read({b!r})', 'real': show_bytes(g), 'model': show_bytes(own)})
+		cls = 'cpp-none' if g is None else 'cpp-same-as-python' if g == py else 'cpp-differs-from-python'
+		hist[cls] += 1
+		if sf == 'true':
+			hist['cppsafe'] += 1
+			if (g is None or g != py) and len(law_bad) < 5:
+				law_bad.append({'case': 'cppread', 'op': f'cppSafe accepts {b!r} but g++ and CPython read it differently', 'real': f'{show_bytes(g)} vs {show_bytes(py)}', 'model': 'true'})
+		ops = [f'cppread\t{hx(b)}']
+		real = [show_bytes(g)]
+		if py is not None:
+			ops.append(f'pyutf8\t{hx(b)}')
+			real.append(show_bytes(py))
+		triples.append(({'class': cls, 'body': b}, ops, real))
+	st = common.correspond('cppread', triples, 'eval', classify=classify_case)
+	st.disagreements.extend(own_bad + law_bad)
+	st.histogram = {**st.histogram, **hist}
+	st.note = ('bodies of valid Python tokens (plain text, octal, \\xhh, \\uhhhh, \\Uhhhhhhhh, one-character, unknown and C++-only escapes; no unescaped double quote): '
+		'g++ -std=c++20 -pedantic on "body" (a diagnostic = no well-defined reading) vs cppBytes; CPython eval(\'body\').encode() vs utf8s(decodeEsc body); the harness reader '
+		'cpp_read vs g++; and wherever cppSafe accepts, g++ == CPython (the statement of cpp_reads_python on the real tools)' + st_note)
 	return st
 
 
@@ -1307,8 +1471,16 @@ def _compare_output(text: str, py: Any, escaped: bool) -> str | None:
 	if kind == 'str' and type(py) is str:
 		if UNESCAPED_DQ.search(v):
 			return f'the emitted text {text!r} is not one C++ string literal (unescaped double quote in the content); CPython gives {py!r}'
-		content = unescape(v)  # the C++ reader decodes the escapes of the literal (a content without backslash is unchanged)
-		return None if content == py else f'the emitted text {text!r} has the content {content!r}, CPython gives {py!r}'
+		# the reader of the emitted text is a C++ compiler: `cpp_read` (ISO C++ escapes, UTF-8; checked against g++ by the stream `cppread`)
+		want = py.encode('utf-8', errors='surrogatepass')
+		got_bytes = cpp_read(v)
+		if got_bytes == want:
+			return None
+		# a text that would be right if C++ read escapes the way Python does: the raw Python body was inlined (one class of finding)
+		tag = PY_ESCAPE_TAG if '\\' in v and unescape(v) == py else ''
+		if got_bytes is None:
+			return f'the emitted text {text!r} is not a well-defined C++ string literal (an escape ISO C++ does not define, or a \\x / octal value beyond one byte); CPython gives {py!r}{tag}'
+		return f'the emitted text {text!r} is read by C++ as the bytes {got_bytes.hex()}, CPython gives {py!r} = bytes {want.hex()}{tag}'
 	if kind in ('int', 'float') and type(py) in (int, float) and kind == type(py).__name__:
 		return None if show_value(v) == show_value(py) else f'the emitted text {text!r} is {show_value(v)}, CPython gives {show_value(py)}'
 	return f'the emitted text {text!r} is a {kind}, CPython gives {show_value(py)}'
@@ -1467,6 +1639,8 @@ def search_output(ctx: Ctx, cases: list[Case]) -> SearchResult:
 			if bad:
 				if 'unescaped double quote' in bad:
 					key = OUTPUT_QUOTE_KEY
+				elif bad.endswith(PY_ESCAPE_TAG):
+					key = OUTPUT_ESCAPE_KEY
 				elif lone:
 					key = LONE_LITERAL_KEY
 				else:
@@ -1474,7 +1648,7 @@ def search_output(ctx: Ctx, cases: list[Case]) -> SearchResult:
 				add(key, f'{m.key} = {m.text}: {bad}', {'source': source, 'member': m.key, 'text': m.text, 'emitted': text, 'eval': show_py(py[m.key]), 'features': sorted(m.feats), 'kind': 'output'})
 			elif len(res.samples) < 3 and len(m.text) > 10:
 				res.samples.append({'member': m.text, 'emitted': text, 'eval': show_py(py[m.key])})
-	known = set(EXCLUDED_KEYS.values()) | {OUTPUT_QUOTE_KEY}
+	known = set(EXCLUDED_KEYS.values()) | {OUTPUT_QUOTE_KEY, OUTPUT_ESCAPE_KEY}
 	res.findings = [f for f in res.findings if f.key not in known] + [f for f in res.findings if f.key in known]
 	res.distinct = len(texts)
 	res.histogram = hist
@@ -1500,6 +1674,9 @@ STATEMENTS = {
 	'escape_counterexample': "documentation of the hazard: plain _cat does not commute with decoding escapes (decodeEsc: octal, \\xhh, \\uhhhh, \\Uhhhhhhhh, one-character and unknown escapes): the bodies \\1 and 2 would join to \\12 = one newline character; tokens with a backslash are outside evalPy",
 	'join_decodes': 'for ALL pairs of bodies: unless the left one ends inside an escape the right one continues (joinsEscape), decoding the joined body = joining the decoded bodies',
 	'catSafe_decodes': 'the positive statement about the SHIPPED join rule (since 05486b1 the string branch of _op_bin_each refuses when _joins_escape; the model step uses catSafe): what it returns decodes to the concatenation of what its operands decode to',
+	'cpp_reads_python': "the far end of the second observation point: on every body cppSafe accepts (no unescaped double quote / raw line feed, only escapes both languages define, \\xhh and octal below 0x80, no hex digit right after \\xhh, \\u / \\U of a scalar value) the C++ narrow string literal \"body\" (cppBytes: ISO C++ escapes, \\x greedy, UTF-8) denotes exactly the UTF-8 encoding of the string CPython reads from 'body' - simulation of CPython's decoder by the C++ reader, state by state",
+	'cpp_escape_counterexample': "the guard is necessary (finding output-python-escape-in-cpp-literal): a\\d is three characters in Python and no defined literal in ISO C++ (g++: ad, with a warning); examples beside it: \\x41b (out of range in C++), \\xe9 and \\351 (byte e9 in C++, U+00E9 = c3 a9 in Python), \\? (only C++ has it)",
+	'output_string_cpp': "string values WITH escapes at the second observation point, no guard on the expression: when the folder returns the token s and CPython the string c, on_relay inlines the double-quoted s[1:-1], and if cppSafe accepts that body a C++ compiler reads it as the UTF-8 encoding of c (agree + emitValue + cpp_reads_python)",
 	'pyInt_accepts_iff': "the model of Python's int(str), base 10, accepts exactly blanks sign? digit (_? digit)* blanks (blanks = C isspace + Unicode White_Space beyond ASCII; digit = any Unicode decimal digit, generated table) with the denoted value",
 	'pyInt_rejects': 'and answers ValueError for every other text',
 	'int_cast_accepts_iff': "the folder's int('<text>') yields n exactly for the texts of that grammar (applied to token[1:-1])",
@@ -1524,9 +1701,9 @@ def run(ctx: Ctx) -> int:
 			cases = make_cases(ctx, app, 'eval', ctx.scale(300, 2600), ALL_REGIONS, corpus=True)
 		with ctx.timed('oracle_rounds'):
 			rounds = fill_oracles(cases)
-			ctx.notes.append(f'oracle rounds: {rounds}; cases dropped (not encodable): {sum(1 for c in cases if c.error)}')
+			ctx.notes.append(f'oracle rounds: {rounds}; cases dropped (not encodable): {sum(1 for c in cases if c.error)} {sorted({(c.error or "")[:60] for c in cases if c.error})}')
 		with ctx.timed('correspondence'):
-			streams = [stream_impl(ctx, cases), stream_py(ctx, cases), stream_unescape(ctx)]
+			streams = [stream_impl(ctx, cases), stream_py(ctx, cases), stream_unescape(ctx), stream_cppread(ctx)]
 	out_cases: list[Case] = []
 	if proof.built:
 		with ctx.timed('observe_output'):
@@ -1545,7 +1722,7 @@ def run(ctx: Ctx) -> int:
 		partial={
 			'proved': 'a different value is never produced: agreement of value and type (no guard; string tokens with octal, \\xhh, \\uhhhh, \\Uhhhhhhhh and one-character escapes included), or refusal, for every expression of the model (literals, unary sign, parentheses, the ten operators in flat chains, casts, member references), for every interpretation of float',
 			'correspondence_only': 'that execImpl is LiteralEvaluator on the Procedure machine and evalPy is CPython (incl. floor %, shifts, two\'s-complement bitwise ops, int()/float()/str() spellings)',
-			'search_only': 'the C++ reading of an inlined text with escapes, IEEE behaviour of the real floats',
+			'search_only': 'IEEE behaviour of the real floats; that the C++ reader cppBytes is what a C++ compiler does is tied to g++ by the stream cppread (and the search reads every emitted string literal with an independent reader written from the standard, checked against g++ in the same stream)',
 			'outside': 'string tokens with \\N{...} or an escape of a lone surrogate (evalPy answers unsupported; never generated)',
 		},
 		assumptions=[
@@ -1557,7 +1734,8 @@ def run(ctx: Ctx) -> int:
 			"int(str) reads every Unicode decimal digit (category Nd; the table of the 0..9 blocks is generated from the interpreter's unicodedata on every run: Generated/UnicodeDigits.lean); blanks: C isspace + Unicode White_Space beyond ASCII; float(str) is the abstract ops.parse (interpreted by CPython in the tie)",
 			"CPython's 4300-digit limit of int/str conversion is lifted in the harness process (the model has none)",
 		],
-		trusted=['the harness interpreter of float terms (harness/c17.py eval_term/answer) uses CPython float operations'])
+		trusted=['the harness interpreter of float terms (harness/c17.py eval_term/answer) uses CPython float operations',
+			'g++ -std=c++20 -pedantic as the reference reader of C++ narrow string literals (stream cppread; UTF-8 execution character set)'])
 
 
 def parse_module_source(source: str) -> list[list[Member]]:
